@@ -8,7 +8,8 @@ analysis of nested function bodies / modifier blocks is a recorder that returns 
 Blocks cover: plain, self-referential, augmented, annotated, attribute-, subscript-, tuple- and starred-target assignments;
 reads before and after an assignment of the same name; call statements; a comprehension (names bound inside, names assigned
 earlier in the block, outer names); a nested function (its own name, its parameters, names assigned earlier, captured names);
-a modifier block (control / power arguments, names live at the body's entry); `comptime(...)` expressions; the branch
+a modifier block (control / power arguments, names live at the body's entry); names such a body reads only in statically
+dead code (they are captures too: the checker analyses nested bodies with unreachable code included); `comptime(...)` expressions; the branch
 predicate.  Decided: `used` and `assigned` are exactly the expected sets for every block.
 """
 
@@ -35,11 +36,13 @@ def call(f, *args):
     return N("Call", func=name(f), args=list(args), keywords=[])
 
 
-def _inner_cfg(live: list[str]) -> Tok:
+def _inner_cfg(live: list[str], dead_only: tuple = ()) -> Tok:
+    """`dead_only`: names the body reads only in statically dead code (live only when unreachable code is included)."""
     _n[0] += 1
     ibb = Tok(f"inner_bb{_n[0]}", __ident__=1)
     ibb.attrs["vars"] = Tok("inner_vars", used={x: name(x) for x in live})
     ibb.attrs["__live__"] = {x: ibb for x in live}
+    ibb.attrs["__live_reachable__"] = {x: ibb for x in live if x not in dead_only}
     ibb.attrs["__methods__"] = {"compute_variable_stats": lambda r, a: Tok("inner_stats", used={}, assigned={})}
     return Tok("inner_cfg", bbs=[ibb], entry_bb=ibb, __ident__=1)
 
@@ -49,8 +52,8 @@ def blocks():
     gen = Tok("generator", __ident__=1, iter_assign=assign(name("%it"), call("make_iter", name("xs"))), next_call=call("next_item", name("%it")), target=name("e"),
               ifs=[N("Compare", left=name("e"), comparators=[name("z")])])
     comp = N("DesugaredListComp", elt=N("BinOp", left=name("e"), right=name("w")), generators=[gen])
-    fdef = N("NestedFunctionDef", name="g", args=Tok("arguments", args=[Tok("arg", arg="a")]), cfg=_inner_cfg(["a", "y", "g", "x"]), _order=())
-    mod = N("ModifiedBlock", control=[name("c")], power=[name("p")], cfg=_inner_cfg(["q", "x"]), _order=("control", "power"))
+    fdef = N("NestedFunctionDef", name="g", args=Tok("arguments", args=[Tok("arg", arg="a")]), cfg=_inner_cfg(["a", "y", "g", "x", "d"], dead_only=("d",)), _order=())
+    mod = N("ModifiedBlock", control=[name("c")], power=[name("p")], cfg=_inner_cfg(["q", "x", "d"], dead_only=("d",)), _order=("control", "power"))
     return [
         ("x = y", [assign(name("x"), name("y"))], None, {"y"}, {"x"}),
         ("x = 1; y = x", [assign(name("x"), N("Constant", value=1)), assign(name("y"), name("x"))], None, set(), {"x", "y"}),
@@ -66,8 +69,10 @@ def blocks():
         ("(p, [q, *r]) = t", [assign(N("Tuple", elts=[name("p"), N("List", elts=[name("q"), N("Starred", value=name("r"))])]), name("t"))], None, {"t"}, {"p", "q", "r"}),
         ("f(x); x = 1", [N("Expr", value=call("f", name("x"))), assign(name("x"), N("Constant", value=1))], None, {"f", "x"}, {"x"}),
         ("w = 1; [e + w for e in xs if e < z]", [assign(name("w"), N("Constant", value=1)), N("Expr", value=comp)], None, {"make_iter", "next_item", "xs", "z"}, {"w"}),
-        ("x = 1; def g(a): <reads a, y, g, x>", [assign(name("x"), N("Constant", value=1)), fdef], None, {"y"}, {"x", "g"}),
-        ("x = 1; with control(c), power(p): <reads q, x>", [assign(name("x"), N("Constant", value=1)), mod], None, {"c", "p", "q"}, {"x"}),
+        # the checker analyses nested bodies with unreachable code included (Python scoping ignores branch conditions), so a
+        # read in dead code of the body is a capture, hence a use of the enclosing block
+        ("x = 1; def g(a): <reads a, y, g, x; reads d in dead code>", [assign(name("x"), N("Constant", value=1)), fdef], None, {"y", "d"}, {"x", "g"}),
+        ("x = 1; with control(c), power(p): <reads q, x; reads d in dead code>", [assign(name("x"), N("Constant", value=1)), mod], None, {"c", "p", "q", "d"}, {"x"}),
         ("x = comptime(k)", [assign(name("x"), N("ComptimeExpr", value=name("k")))], None, set(), {"x"}),
         ("x = 1  (branch on x and b)", [assign(name("x"), N("Constant", value=1))], N("BoolOp", values=[name("x"), name("b")]), {"b"}, {"x"}),
     ]
@@ -78,6 +83,7 @@ def run(ctx: Ctx) -> bool:
     vv = idx.find_class("VariableVisitor", MOD)
     bbc = idx.find_class("BB", MOD)
     cvs = bbc.find_method("compute_variable_stats")
+    live_cls = idx.find_class("LivenessAnalysis", "guppylang_internals.cfg.analysis")
     key = f"{vv.qualname}#used-is-read-before-assigned"
     if cvs is None:
         ctx.undecided("R-C08.6", key, vv.where, "BB.compute_variable_stats not found")
@@ -93,7 +99,12 @@ def run(ctx: Ctx) -> bool:
                 return Tok(f"visitor{_n[0]}", bb=bbv, stats=Tok("stats", used={}, assigned={}, __ident__=1), __classes__=vv.mro(), __visitor__=True, __ident__=1)
 
             def mk_liveness(node, e, env):
-                return Tok("liveness", __methods__={"run": lambda r, a: {b: b.attrs["__live__"] for b in a[0]}})
+                init = live_cls.find_method("__init__")
+                names = [a.arg for a in init.node.args.args][1:] if init is not None else ["stats", "initial", "include_unreachable"]
+                given = dict(zip(names, [e.ev(a, env) for a in node.args]))
+                given.update({k.arg: e.ev(k.value, env) for k in node.keywords if k.arg})
+                which = "__live__" if given.get("include_unreachable") is True else "__live_reachable__"
+                return Tok("liveness", __methods__={"run": lambda r, a, which=which: {b: b.attrs[which] for b in a[0]}})
 
             bb = Tok("bb", statements=list(stmts), branch_pred=pred, __classes__=bbc.mro(), __ident__=1)
             env = {cvs.node.args.args[0].arg: bb, "VariableVisitor": mk_visitor, "LivenessAnalysis": mk_liveness,
